@@ -348,7 +348,7 @@ def corr_case(seed, t):
     n = cfgK["n"]; prec = cfgK["prec"]
     cfg = dict(cfgK, rtrans=rng.choice([0, 0, 1, 1, 2]), requed=rng.choice([0, 0, 1, 2, 3]), rnrhs=rng.choice([1, 1, 2]),
                path=rng.choice(["zero_corr", "one_corr", "one_corr", "far"]), gen=["corr", seed, t])
-    if rng.random() < 0.1:
+    if rng.random() < 0.15:
         # ITMAX path: the factors handed to ?gsrfs belong to A0 = I while A = I + (1/4)*subdiagonal (values replaced after the
         # factorization): every correction is a Richardson step x += b - op(A) x, the error shifts and shrinks by 4 per step,
         # berr is divided by ~4 every time and the loop can only stop on count = ITMAX.  All arithmetic is dyadic (exact).
@@ -358,12 +358,16 @@ def corr_case(seed, t):
         M0 = G.from_pattern(n, pat, lambda i, j: 1.0 if i == j else 0.0, False); M0.kind = "richardson"
         M = G.from_pattern(n, pat, lambda i, j: 1.0 if i == j else sub[j], False); M.kind = "richardson"
         tr = rng.choice([0, 1, 2])
-        cfg.update(n=n, rtrans=tr, path="itmax", rnrhs=1, requed=0, factor_vals=[float(v) for v in M0.vals])
+        # several right-hand sides: the ITMAX budget is per column ("for every right-hand side"), so every column must take its own 5 corrections
+        nr_ = rng.choice([1, 2, 3])
+        cfg.update(n=n, rtrans=tr, path="itmax", rnrhs=nr_, requed=0, factor_vals=[float(v) for v in M0.vals])
         Dm = R.dense_frac(M)
-        xs = [F(rng.choice([-3, -2, -1, 1, 2, 3])) for _ in range(n)]
-        b = [sum((Dm[i][j] if tr == 0 else Dm[j][i]) * xs[j] for j in range(n)) for i in range(n)]
+        Bs = []
+        for _ in range(nr_):
+            xs = [F(rng.choice([-3, -2, -1, 1, 2, 3])) for _ in range(n)]
+            Bs.append([sum((Dm[i][j] if tr == 0 else Dm[j][i]) * xs[j] for j in range(n)) for i in range(n)])
         Rs = [1.0] * n; Cs = [1.0] * n
-        return cfg, M, [b], [[F(0)] * n], Rs, Cs
+        return cfg, M, Bs, [[F(0)] * n for _ in range(nr_)], Rs, Cs
     Dm = R.dense_frac(M)
     Xs = []; Bs = []; X0 = []
     for _ in range(cfg["rnrhs"]):
